@@ -56,6 +56,7 @@ def covered(G):
 
 
 _canon = {}
+KF_GENERIC = "generic-backend-ties-follow-insertion-order"
 
 
 def canon(backend):
@@ -93,6 +94,18 @@ def check_graph(ctx, G, tag, key, groups, perms=None, light=False):
             ctx.count("signature_repeat_checked")
             if not (s1 == s2 == s3):
                 ctx.violation("signature-not-deterministic", {**wit, "backend": backend}, f"{backend}: repeated signature calls differ {s1} {s2} {s3}")
+        if not light:
+            # the same labelled graph (same node ids) built in another insertion / edge order is the same graph
+            Gs, _ = WG.scramble(G, rng, ids=list(G.nodes))
+            ctx.count("same_ids_other_insertion_order_checked")
+            s4 = c.canonical_signature(Gs)
+            if s4 != s1:
+                # recorded finding: the attribute-sort back-end orders nodes with equal sort keys by insertion order
+                keys = [tuple(G.nodes[n].get(k) for k in NKEYS) for n in G.nodes]
+                fnd = KF_GENERIC if backend == "generic" and len(set(keys)) < len(keys) else None
+                ctx.violation("signature-not-deterministic", {**wit, "backend": backend, "presentation": WG.describe(Gs)},
+                              f"{backend}: the same graph (identical node ids, attributes and bonds) inserted in another order gets a different signature",
+                              finding=fnd)
         # soundness bookkeeping: first graph seen per (backend, signature)
         rep = groups.setdefault((backend, s1), G)
         if rep is not G:
